@@ -1771,3 +1771,27 @@ package main
 //@   panics may
 //@   ensures parameters-in-a-child-scope: exists sc Scope :: {scparent(sc)} scparent(sc) == ps.scope && sc != ps.scope && glob(vardefs) == params_log(old(glob(vardefs)), sc, Expr_ELambda_Value(result.E1).Params) && arg(pBlock, old(calls(pBlock))).scope == sc
 //@   ensures scope-restored: result.E0.scope == ps.scope
+
+// entering a type definition group resets the allocator of forward-declaration placeholders (and nothing
+// else: the per-let type-variable allocator of the inference context is not touched), starts with empty
+// tables and keeps every other component of the state
+//@ func tvaReset
+//@   trusted
+//@   modifies glob:tvaresets
+//@   panics never
+//@   ensures logged: glob(tvaresets) == reset_of(old(glob(tvaresets)), tva)
+
+//@ func psEnterTypeDef
+//@   props C07
+//@   modifies maps glob:tvaresets
+//@   panics never
+//@   ensures resets-the-placeholder-allocator-only: glob(tvaresets) == reset_of(old(glob(tvaresets)), ps.tdctx.tva)
+//@   ensures context: result.tdctx.tva == ps.tdctx.tva && result.tdctx.insideTD && (forall k string :: !has(result.tdctx.defined.Fdict, k)) && (forall k string :: !has(result.tdctx.allocedDict.Fdict, k))
+//@   ensures fresh-tables: result.tdctx.defined.Fdict >= old(next) && result.tdctx.allocedDict.Fdict >= old(next) && result.tdctx.defined.Fdict != result.tdctx.allocedDict.Fdict
+//@   ensures rest: result.tkz == ps.tkz && result.scope == ps.scope && result.offsideCol == ps.offsideCol && result.tvc == ps.tvc
+
+//@ func psLeaveTypeDef
+//@   props C07
+//@   panics never
+//@   ensures context: result.tdctx.tva == ps.tdctx.tva && !result.tdctx.insideTD && result.tdctx.defined == ps.tdctx.defined && result.tdctx.allocedDict == ps.tdctx.allocedDict
+//@   ensures rest: result.tkz == ps.tkz && result.scope == ps.scope && result.offsideCol == ps.offsideCol && result.tvc == ps.tvc
